@@ -72,6 +72,29 @@ def canon_case(inp):
             r["sig"] = [str(w.signature) for w in ws]
             r["sig2"] = [str(SynGraph(copy.deepcopy(G), GraphCanonicaliser(backend="nauty")).signature) for G in objs]
             r["eq"] = [[bool(a == b) and (hash(a) == hash(b)) for b in ws] for a in ws]
+        elif backend == "nauty-synrule":
+            # rule wrapper: every object is read as a reaction centre (node attributes equal on both sides, the bond code
+            # decoded into a (before, after) order pair, so every bond is a changed bond); rule isomorphism = graph isomorphism
+            from synkit.Rule.syn_rule import SynRule
+            import networkx as nx
+            PAIR = {1.0: (1.0, 0.0), 2.0: (0.0, 1.0), 1.5: (1.0, 2.0), 3.0: (2.0, 1.0)}
+            if any(G.number_of_nodes() == 0 or any(G.degree(v) == 0 for v in G) for G in objs):
+                continue           # an atom without a changed bond is not part of a reaction centre
+
+            def as_rc(G):
+                I = nx.Graph()
+                for v, d in G.nodes(data=True):
+                    # the hydrogen count is read as a count that the rule removes: (hcount before, 0 after)
+                    t0 = (d["element"], False, int(d.get("hcount", 0)), d["charge"], [])
+                    t1 = (d["element"], False, 0, d["charge"], [])
+                    I.add_node(v, element=d["element"], aromatic=False, hcount=int(d.get("hcount", 0)), charge=d["charge"], atom_map=v, typesGH=(t0, t1))
+                for u, v, d in G.edges(data=True):
+                    a, b = PAIR[d["order"]]
+                    I.add_edge(u, v, order=(a, b), standard_order=a - b)
+                return I
+            ws = [SynRule(as_rc(G), canonicaliser=GraphCanonicaliser(backend="nauty"), implicit_h=False) for G in objs]
+            r["eq"] = [[bool(a == b) and (hash(a) == hash(b)) for b in ws] for a in ws]
+            r["exact"] = True
         else:
             raise core.MachineryError(backend)
         out.append(r)
@@ -124,7 +147,7 @@ class S(core.Stage):
         return c["g"][0]["n"] >= 3
 
 
-BACKENDS = ["generic", "wl", "morgan", "nauty", "generic-signature", "wl-signature", "morgan-signature", "nauty-signature",
+BACKENDS = ["generic", "wl", "morgan", "nauty", "generic-signature", "wl-signature", "morgan-signature", "nauty-signature", "nauty-synrule",
             "nauty-direct", "nauty-syngraph"]
 
 
@@ -145,7 +168,52 @@ def family(rng, g, other=None):
         fam += [h, gl.permuted(h, rng)]
     if other is not None:
         fam.append(other)
+    rp = repaired(g, rng)
+    if rp is not None:
+        fam.append(rp)
+    # hydrogen counts moved between atoms that otherwise look alike
+    ks = list(range(g["n"]))
+    rng.shuffle(ks)
+    for a in ks:
+        b = next((x for x in ks if x != a and g["lab"][x] == g["lab"][a] and g["hc"][x] != g["hc"][a]), None)
+        if b is not None:
+            hc = list(g["hc"])
+            hc[a], hc[b] = hc[b], hc[a]
+            fam.append({"n": g["n"], "lab": list(g["lab"]), "hc": hc, "adj": [list(r) for r in g["adj"]]})
+            break
     return fam
+
+
+def repaired(g, rng):
+    """The bonds of one code moved by a permutation that keeps node attributes, the other bonds left in place: read as a
+    rule, both sides are isomorphic to those of g, but the way they are joined usually is not."""
+    n = g["n"]
+    codes = sorted({g["adj"][u][v] for u in range(n) for v in range(u + 1, n) if g["adj"][u][v]})
+    if len(codes) < 2:
+        return None
+    move = rng.choice(codes)
+    for _ in range(8):
+        groups = {}
+        for k in range(n):
+            groups.setdefault((g["lab"][k], g["hc"][k]), []).append(k)
+        pi = list(range(n))
+        for ks in groups.values():
+            img = ks[:]
+            rng.shuffle(img)
+            for a, b in zip(ks, img):
+                pi[a] = b
+        adj = [[0 if g["adj"][u][v] == move else g["adj"][u][v] for v in range(n)] for u in range(n)]
+        ok = True
+        for u in range(n):
+            for v in range(u + 1, n):
+                if g["adj"][u][v] == move:
+                    a, b = pi[u], pi[v]
+                    if adj[a][b]:
+                        ok = False
+                    adj[a][b] = adj[b][a] = move
+        if ok and adj != g["adj"]:
+            return {"n": n, "lab": list(g["lab"]), "hc": list(g["hc"]), "adj": adj}
+    return None
 
 
 def cyc(n, lab=1, order=1):
